@@ -248,6 +248,10 @@ def _prod(shape):
 
 
 def build_value(spec, root):
+    if spec["d"]["k"] == "gplots":
+        # a group made by the real lena.flow.group_plots from its members: ([data, …], context with `group`)
+        from lena.flow.group_plots import group_plots
+        return group_plots([build_value(m, root) for m in spec["d"]["members"]])
     data = build_data(spec["d"], root)
     if spec.get("c") is None:
         return data
@@ -289,7 +293,15 @@ def model_data(d):
     raise ValueError(k)
 
 
+def _gplots_ctx(spec):
+    """the context the real group_plots gives to a group (plain JSON, `$R` kept)"""
+    return _plain(build_value(spec, "$R")[1], "$R")
+
+
 def model_item(spec, idx):
+    if spec["d"]["k"] == "gplots":
+        return {"t": 2 * idx, "d": {"k": "seq", "tuple": False, "items": [model_data(m["d"]) for m in spec["d"]["members"]]},
+                "c": {"t": 2 * idx + 1, "v": model_cv(_gplots_ctx(spec))}}
     c = spec.get("c")
     return {"t": 2 * idx, "d": model_data(spec["d"]),
             "c": None if c is None else {"t": 2 * idx + 1, "v": model_cv(c)}}
@@ -306,6 +318,8 @@ def merge(pat, A, B):
 # the harness's reference of the documented selection rules (independent of the Lean model)
 
 def _ctx(spec):
+    if spec["d"]["k"] == "gplots":
+        return _gplots_ctx(spec)
     c = spec.get("c")
     return c if c is not None else {}
 
@@ -328,6 +342,8 @@ _CLS = {"int": ("int",), "str": ("str",), "histogram": ("hist",), "tuple": ("seq
 
 
 def _kind(d):
+    if d["k"] == "gplots":
+        return "seq:l"
     if d["k"] == "seq":
         return "seq:t" if d["tuple"] else "seq:l"
     return d["k"]
@@ -346,7 +362,7 @@ def eval_sel(sel, spec):
 
 
 def _has_iter(d):
-    return d["k"] in ("str", "seq", "bytes", "baredict")
+    return d["k"] in ("str", "seq", "bytes", "baredict", "gplots")
 
 
 def ref_selected(el, spec):
@@ -378,6 +394,8 @@ def ref_selected(el, spec):
         return "group" in c and _has_iter(d)
     if k == "pipe":
         return any(ref_selected(st, spec) for st in el["stages"])
+    if k == "groupplots":
+        return True if el.get("sel") is None else eval_sel(el["sel"], spec)
     raise ValueError(k)
 
 
@@ -615,8 +633,25 @@ def make_element(el, root, tdir, clock):
     if k == "render":
         sel = el.get("sel")
         sd = None if sel is None else lena.flow.Selector(_make_selector(sel))
-        return lena.output.RenderLaTeX(select_template=el["def"], template_dir=tdir, select_data=sd,
+        st = el.get("seltemplate")
+        if st is not None:
+            def raising(val):
+                raise Inner1()
+            gd = lena.flow.get_data
+            select_template = {"t2": lambda val: "t2.tex", "missing": lambda val: "missing.tex", "raise": raising,
+                               "bycls": lambda val: "t1.tex" if type(gd(val)) is int else "t2.tex"}[st]
+        else:
+            select_template = el["def"]
+        return lena.output.RenderLaTeX(select_template=select_template, template_dir=tdir, select_data=sd,
+                                       from_data=bool(el.get("fromdata")),
                                        verbose=2 if el.get("verbose") else 0), nothing
+    if k == "groupplots":
+        import lena.flow
+        gd, gc = lena.flow.get_data, lena.flow.get_context
+        key = {"parity": lambda v: "k%d" % (gd(v) % 2), "cls": lambda v: type(gd(v)).__name__,
+               "ctxn": lambda v: str(gc(v)["n"]), "const": lambda v: "all"}[el["key"]]
+        sel = None if el.get("sel") is None else _make_selector(el["sel"])
+        return lena.flow.GroupPlots(key, select=sel, yield_selected=el["ys"]), nothing
     if k == "pipe":
         els, cleanups = [], []
         for st in el["stages"]:
@@ -663,7 +698,13 @@ def make_element(el, root, tdir, clock):
             create_command=None if el.get("default_cmd") else
             (lambda tex, out, outdir, ctx: ["stub-pdflatex", tex, out])), restore
     if k == "h2g":
-        return lena.structures.HistToGraph(), nothing
+        import lena.variables
+        mv = {"first": lambda: lena.variables.Variable("first", lambda b: b[0]),
+              "witherr": lambda: lena.variables.Variable("witherr", lambda b: (b, 1))}.get(el.get("mv"))
+        nf = el.get("nfields", 2)
+        return lena.structures.HistToGraph(
+            make_value=mv() if mv else None, get_coordinate=el.get("coord", "left"),
+            field_names=tuple("xyzuvw"[:nf]), scale=True if el.get("scale") else el.get("scalenum")), nothing
     classes = _py_classes()
     if k == "iterbins":
         if el.get("default"):
@@ -843,7 +884,7 @@ def _plain_cv(o):
     return o
 
 
-def norm_model_item(it, pipe=False):
+def norm_model_item(it, pipe=False, full=False):
     t = it["t"]
     if not isinstance(t, int):
         t = "new"
@@ -856,7 +897,7 @@ def norm_model_item(it, pipe=False):
     else:
         ct = c["t"] if isinstance(c["t"], int) else "new"
         out["c"] = {"t": ct}
-        if t == "new":
+        if t == "new" or full:
             out["c"]["v"] = _mask(_plain_cv(c["v"]))
     if "pass" in it:
         out["pass"] = it["pass"]
@@ -888,10 +929,127 @@ def enc_deep(o, root):
 # ----------------------------------------------------------------------------------------------------
 # running the real element
 
-def _run_once(case, specs, idxs, is_b):
-    """Run the element of the case over the values built from `specs`; `idxs[i]` is the position of value i in the
-    interleaved flow of the case (used as its identity number), `is_b[i]` says whether it is a B value."""
+def _reduce_gp(d):
+    """the context of a value made by group_plots, as far as the model interprets it"""
+    out = d.get("output")
+    return {"output": {"changed": out.get("changed")} if isinstance(out, dict) else out, "group": "<opaque>"}
+
+
+def _apply_alias(flow, alias):
+    """make flow values share objects: [i, j, "ctx"]: value j gets the context object of value i;
+    [i, j, "same"]: position j holds the very object of position i"""
     import lena.flow
+    for i, j, kind in alias:
+        if kind == "same":
+            flow[j] = flow[i]
+        elif lena.flow.functions._has_context(flow[i]) and lena.flow.functions._has_context(flow[j]):
+            flow[j] = (flow[j][0], flow[i][1])
+    return flow
+
+
+def _run_flow(el, element, clock, root, specs, idxs, is_b, alias):
+    """one run of the (possibly already used) element object over the values built from `specs`"""
+    import contextlib
+    import io
+    import lena.flow
+    has_ctx = lena.flow.functions._has_context
+    flow = _apply_alias([build_value(s, root) for s in specs], alias)
+    before = [enc_deep(v, root) for v in flow]
+    ids, cids = {}, {}
+    for i, v in enumerate(flow):
+        ids.setdefault(id(v), i)
+        if has_ctx(v):
+            cids.setdefault(id(v[1]), i)
+    outs, marks, snaps = [], [], []
+    fs_check = el["k"] != "pdf"
+
+    def feed():
+        for i, v in enumerate(flow):
+            marks.append(len(outs))
+            if fs_check:
+                snaps.append(snapshot(root))
+            clock.iter = i
+            yield v
+        marks.append(len(outs))
+        if fs_check:
+            snaps.append(snapshot(root))
+
+    err = None
+    with warnings.catch_warnings(), contextlib.redirect_stdout(io.StringIO()):   # verbose elements print
+        warnings.simplefilter("ignore")
+        try:
+            for o in element.run(feed()):
+                outs.append(o)
+        except Exception as e:      # the watchdog's CaseTimeout is a BaseException and passes
+            err = exc_name(e)
+    pulled = min(len(marks), len(flow))
+    exhausted = len(marks) == len(flow) + 1
+    text_kind = {"tocsv": "csv", "render": "tex", "pipe": "*"}.get(el["k"])
+    gp = el["k"] == "groupplots"
+
+    def enc(o):
+        i = ids.get(id(o))
+        if i is not None and flow[i] is o:
+            r = {"t": 2 * idxs[i]}
+            if has_ctx(o):
+                j = cids.get(id(o[1]))
+                r["c"] = {"t": 2 * idxs[j] + 1}
+                if alias:
+                    r["c"]["v"] = _mask(_plain(o[1], root))      # aliasing: what the shared object holds now
+            else:
+                r["c"] = None
+            return r
+        r = {"t": "new"}
+        if has_ctx(o):
+            r["d"] = enc_data(o[0], root, text_kind)
+            j = cids.get(id(o[1]))
+            ct = 2 * idxs[j] + 1 if j is not None and flow[j][1] is o[1] else "new"
+            plain = _plain(o[1], root)
+            r["c"] = {"t": ct, "v": _reduce_gp(plain) if gp and "group" in plain else _mask(plain)}
+        else:
+            r["d"] = enc_data(o, root, text_kind)
+            r["c"] = None
+        return r
+
+    encs = [enc(o) for o in outs]
+    blocks = []
+    for i in range(pulled):
+        hi = marks[i + 1] if i + 1 < len(marks) else len(outs)
+        blocks.append(encs[marks[i]:hi])
+    tail = encs[marks[len(flow)]:] if exhausted else []
+    # identity, order, integrity of the B values
+    positions = {}
+    for pos, o in enumerate(outs):
+        i = ids.get(id(o))
+        if i is not None and flow[i] is o:
+            positions.setdefault(i, []).append(pos)
+    after = [enc_deep(v, root) for v in flow]
+    b_report = []
+    for i, v in enumerate(flow):
+        if not is_b[i]:
+            continue
+        rep = {"idx": idxs[i], "pulled": i < pulled, "pos": positions.get(ids[id(v)], []),
+               "intact": before[i] == after[i]}
+        if fs_check and i + 1 < len(snaps):
+            rep["fs_untouched"] = snaps[i] == snaps[i + 1]
+        b_report.append(rep)
+    # everything that is not a passed B value, in full detail
+    b_pos = set(p for i, ps in positions.items() if is_b[i] for p in ps)
+    produced = [enc_deep(o, root) for pos, o in enumerate(outs) if pos not in b_pos]
+    prod_blocks = []
+    for i in range(pulled):
+        hi = marks[i + 1] if i + 1 < len(marks) else len(outs)
+        prod_blocks.append([enc_deep(outs[p], root) for p in range(marks[i], hi)])
+    return {"blocks": blocks, "tail": tail, "err": err, "fs": snapshot(root), "b": b_report,
+            "produced": produced, "deep_blocks": prod_blocks,
+            "deep_tail": [enc_deep(o, root) for o in outs[marks[len(flow)]:]] if exhausted else [],
+            "npulled": pulled}
+
+
+def _run_once(case, runs):
+    """Construct the element of the case in a freshly prepared directory and run it over each of `runs` in turn
+    (one element object; `runs` = [(specs, idxs, is_b, alias), …]: `idxs[i]` is the identity number of value i,
+    `is_b[i]` says whether it is a B value)."""
     el = case["el"]
     root = tempfile.mkdtemp(prefix="c10_", dir="/dev/shm" if os.path.isdir("/dev/shm") else None)
     tdir = tempfile.mkdtemp(prefix="c10t_", dir="/dev/shm" if os.path.isdir("/dev/shm") else None)
@@ -906,98 +1064,14 @@ def _run_once(case, specs, idxs, is_b):
         for name in sorted(tnames):
             with open(os.path.join(tdir, name), "w") as f:
                 f.write(TEMPLATES[name])
-        flow = [build_value(s, root) for s in specs]
-        before = [enc_deep(v, root) for v in flow]
-        ids = {}
-        for i, v in enumerate(flow):
-            ids[id(v)] = i
-        cids = {}
-        for i, v in enumerate(flow):
-            if lena.flow.functions._has_context(v):
-                cids[id(v[1])] = i
-        element, cleanup = make_element(el, root, tdir, clock)
-        outs, marks, snaps = [], [], []
-        fs_check = el["k"] != "pdf"
-
-        def feed():
-            for i, v in enumerate(flow):
-                marks.append(len(outs))
-                if fs_check:
-                    snaps.append(snapshot(root))
-                clock.iter = i
-                yield v
-            marks.append(len(outs))
-            if fs_check:
-                snaps.append(snapshot(root))
-
-        err = None
-        import contextlib
-        import io
-        with warnings.catch_warnings(), contextlib.redirect_stdout(io.StringIO()):   # verbose elements print
+        with warnings.catch_warnings():
             warnings.simplefilter("ignore")
-            try:
-                for o in element.run(feed()):
-                    outs.append(o)
-            except Exception as e:      # the watchdog's CaseTimeout is a BaseException and passes
-                err = exc_name(e)
-        pulled = min(len(marks), len(flow))
-        exhausted = len(marks) == len(flow) + 1
-        text_kind = {"tocsv": "csv", "render": "tex", "pipe": "*"}.get(el["k"])
-
-        def enc(o):
-            i = ids.get(id(o))
-            if i is not None and flow[i] is o:
-                r = {"t": 2 * idxs[i]}
-                if lena.flow.functions._has_context(o):
-                    r["c"] = {"t": 2 * idxs[i] + 1}
-                else:
-                    r["c"] = None
-                return r
-            r = {"t": "new"}
-            if lena.flow.functions._has_context(o):
-                r["d"] = enc_data(o[0], root, text_kind)
-                j = cids.get(id(o[1]))
-                ct = 2 * idxs[j] + 1 if j is not None and flow[j][1] is o[1] else "new"
-                r["c"] = {"t": ct, "v": _mask(_plain(o[1], root))}
-            else:
-                r["d"] = enc_data(o, root, text_kind)
-                r["c"] = None
-            return r
-
-        encs = [enc(o) for o in outs]
-        blocks = []
-        for i in range(pulled):
-            hi = marks[i + 1] if i + 1 < len(marks) else len(outs)
-            blocks.append(encs[marks[i]:hi])
-        tail = encs[marks[len(flow)]:] if exhausted else []
-        # identity, order, integrity of the B values
-        positions = {}
-        for pos, o in enumerate(outs):
-            i = ids.get(id(o))
-            if i is not None and flow[i] is o:
-                positions.setdefault(i, []).append(pos)
-        after = [enc_deep(v, root) for v in flow]
-        b_report = []
-        for i, v in enumerate(flow):
-            if not is_b[i]:
-                continue
-            rep = {"idx": idxs[i], "pulled": i < pulled, "pos": positions.get(i, []),
-                   "intact": before[i] == after[i]}
-            if fs_check and i + 1 < len(snaps):
-                rep["fs_untouched"] = snaps[i] == snaps[i + 1]
-            b_report.append(rep)
-        # everything that is not a passed B value, in full detail
-        b_pos = set(p for i, ps in positions.items() if is_b[i] for p in ps)
-        produced = [enc_deep(o, root) for pos, o in enumerate(outs) if pos not in b_pos]
-        prod_blocks = []
-        for i in range(pulled):
-            hi = marks[i + 1] if i + 1 < len(marks) else len(outs)
-            prod_blocks.append([enc_deep(outs[p], root) for p in range(marks[i], hi)])
-        return {"blocks": blocks, "tail": tail, "err": err, "fs": snapshot(root), "fs0": fs0, "b": b_report,
-                "produced": produced,
-                "deep_blocks": prod_blocks,
-                "deep_tail": [enc_deep(o, root) for o in outs[marks[len(flow)]:]] if exhausted else [],
-                "npulled": pulled, "stub_writes": sorted(_canon_str(p, root) for p in clock.stub_writes)}
+            element, cleanup = make_element(el, root, tdir, clock)
+        results = []
+        for specs, idxs, is_b, alias in runs:
+            results.append(_run_flow(el, element, clock, root, specs, idxs, is_b, alias))
+        results[0]["fs0"] = fs0
+        return results
     finally:
         cleanup()
         shutil.rmtree(root, ignore_errors=True)
@@ -1011,30 +1085,74 @@ def _flow_specs(case):
     return specs, a_idx
 
 
+SECOND_OFFSET = 500        # identity numbers of the values of a second flow
+
+
+def _alias_in_a(alias, a_idx):
+    """the sharing that remains when only the A values are run"""
+    pos = {i: n for n, i in enumerate(a_idx)}
+    return [[pos[i], pos[j], kind] for i, j, kind in alias if i in pos and j in pos]
+
+
 def run_impl(case):
     specs, a_idx = _flow_specs(case)
-    full = _run_once(case, specs, list(range(len(specs))), [not p for p in case["pat"]])
-    aonly = _run_once(case, case["A"], a_idx, [False] * len(case["A"]))
-    return {"full": full, "a": aonly}
+    alias = case.get("alias", [])
+    full_runs = [(specs, list(range(len(specs))), [not p for p in case["pat"]], alias)]
+    a_runs = [(case["A"], a_idx, [False] * len(case["A"]), _alias_in_a(alias, a_idx))]
+    sec = case.get("second")
+    if sec:
+        specs2 = merge(sec["pat"], sec["A"], sec["B"])
+        a_idx2 = [i for i, p in enumerate(sec["pat"]) if p]
+        full_runs.append((specs2, [SECOND_OFFSET + i for i in range(len(specs2))], [not p for p in sec["pat"]], []))
+        a_runs.append((sec["A"], [SECOND_OFFSET + i for i in a_idx2], [False] * len(sec["A"]), []))
+    full = _run_once(case, full_runs)
+    aonly = _run_once(case, a_runs)
+    res = {"full": full[0], "a": aonly[0]}
+    if sec:
+        res["full2"], res["a2"] = full[1], aonly[1]
+    if alias:
+        # does the property hold on this flow, whose values share objects?  (recorded, not demanded)
+        res["law"] = _oracle(dict(case, alias=[]), res)
+    return res
 
 
 # ----------------------------------------------------------------------------------------------------
 # model side
 
+def _model_items(specs, idxs, alias):
+    items = [model_item(s, i) for s, i in zip(specs, idxs)]
+    for i, j, kind in alias:          # positions in this list
+        if kind == "same":
+            items[j] = items[i]
+        elif items[i]["c"] is not None and items[j]["c"] is not None:
+            items[j] = dict(items[j], c=items[i]["c"])
+    return items
+
+
 def model_requests(case):
     pat, A, B = case["pat"], case["A"], case["B"]
-    a_idx = [i for i, p in enumerate(pat) if p]
-    b_idx = [i for i, p in enumerate(pat) if not p]
     el = dict(case["el"])
     if el.get("real"):
         return []          # real converter processes: the oracle alone (their timing is not under control)
-    return [{"el": el, "fs": model_fs(case.get("fs", {})),
-             "A": [model_item(s, i) for s, i in zip(A, a_idx)],
-             "B": [model_item(s, i) for s, i in zip(B, b_idx)], "pat": pat}]
+    specs, a_idx = _flow_specs(case)
+    alias = case.get("alias", [])
+    flow_items = _model_items(specs, list(range(len(specs))), alias)
+    req = {"el": el, "fs": model_fs(case.get("fs", {})),
+           "A": [flow_items[i] for i, p in enumerate(pat) if p],
+           "B": [flow_items[i] for i, p in enumerate(pat) if not p], "pat": pat}
+    if alias:
+        req["shared"] = True
+    sec = case.get("second")
+    if sec:
+        specs2 = merge(sec["pat"], sec["A"], sec["B"])
+        items2 = _model_items(specs2, [SECOND_OFFSET + i for i in range(len(specs2))], [])
+        req["second"] = {"A": [items2[i] for i, p in enumerate(sec["pat"]) if p],
+                         "B": [items2[i] for i, p in enumerate(sec["pat"]) if not p], "pat": sec["pat"]}
+    return [req]
 
 
-def _cmp_run(name, impl, mod, is_pdf, pipe=False):
-    mb = [[norm_model_item(x, pipe) for x in blk] for blk in mod["blocks"]]
+def _cmp_run(name, impl, mod, is_pdf, pipe=False, full=False):
+    mb = [[norm_model_item(x, pipe, full) for x in blk] for blk in mod["blocks"]]
     ib = impl["blocks"]
     if is_pdf:
         ib = [[dict(x, **{"pass": isinstance(x["t"], int)}) for x in blk] for blk in ib]
@@ -1066,6 +1184,12 @@ def _cmp_run(name, impl, mod, is_pdf, pipe=False):
     return None
 
 
+def _really_shared(case):
+    specs, _ = _flow_specs(case)
+    return any(k == "ctx" and specs[i].get("c") is not None and specs[j].get("c") is not None
+               for i, j, k in case["alias"])
+
+
 def compare(case, res, replies):
     m = replies[0]
     if "err" in m and "run" not in m:
@@ -1078,10 +1202,30 @@ def compare(case, res, replies):
     if m["sel"] != ref_sel:
         return f"selection predicate: model {m['sel']} vs documented rule {ref_sel}"
     pipe = case["el"]["k"] == "pipe"
-    msg = (_cmp_run("interleaved flow", res["full"], m["run"], is_pdf, pipe)
-           or _cmp_run("A alone", res["a"], m["a"], is_pdf, pipe))
+    alias = bool(case.get("alias"))
+    msg = (_cmp_run("interleaved flow", res["full"], m["run"], is_pdf, pipe, alias)
+           or _cmp_run("A alone", res["a"], m["a"], is_pdf, pipe, alias))
     if msg:
         return msg
+    if alias:
+        # reference semantics (sharedStep/finalView) agreed with the real code; `localB` must say "not local"
+        # whenever two positions really share an object
+        if m["local"] and any(k == "ctx" for _, _, k in case["alias"]) and _really_shared(case):
+            return "model: localB holds for a flow whose values share a context object"
+        return None
+    if case.get("second"):
+        sec = case["second"]
+        specs2 = merge(sec["pat"], sec["A"], sec["B"])
+        if m["sel2"] != [ref_selected(case["el"], x) for x in specs2]:
+            return f"selection predicate (second flow): model {m['sel2']}"
+        msg = (_cmp_run("second flow, interleaved", res["full2"], m["run2"], is_pdf, pipe)
+               or _cmp_run("second flow, A alone", res["a2"], m["a2"], is_pdf, pipe))
+        if msg:
+            return msg
+        if m["pred2"] != m["run2"]["blocks"]:
+            return f"model: mergeBlocks {m['pred2']} differs from the blocks of the second run {m['run2']['blocks']}"
+    if not is_pdf and m.get("ispattern") is False:
+        return "model: IsPattern is false for the pattern of the case"
     if not is_pdf:
         if m["pred"] != m["run"]["blocks"]:
             return f"model: mergeBlocks {m['pred']} differs from the blocks of the interleaved run {m['run']['blocks']}"
@@ -1098,6 +1242,9 @@ def compare(case, res, replies):
         # the reference notions of the LaTeXToPDF theorems against the real run
         if m["passed"] != [2 * i for i, pp in enumerate(case["pat"]) if not pp][:len(m["passed"])]:
             return f"model: passedOf {m['passed']} is not a prefix of the B values"
+        if m["run"]["err"] is None and [norm_model_item(x) for x in m["pending"]] != \
+                [norm_model_item({k: v for k, v in x.items() if k != "pass"}) for x in m["run"]["tail"]]:
+            return f"model: pending {m['pending']} is not what is yielded after the flow {m['run']['tail']}"
         if m["run"]["err"] is None and res["full"]["err"] is None:
             key = lambda x: repr(sorted(x.items(), key=lambda kv: kv[0]))
             norm = lambda it: {"d": norm_model_data(it["d"]), "c": None if it["c"] is None else
@@ -1120,21 +1267,37 @@ def compare(case, res, replies):
 
 def oracle(case, res):
     try:
-        return _oracle(case, res)
+        if case.get("alias"):
+            # flow values share objects: outside the property's quantifier (locality); what happens is recorded in
+            # res["law"] and compared with the reference semantics of the model, not demanded
+            return None
+        msg = _oracle(case, res)
+        if msg is None and case.get("second"):
+            # the same element object used for a second flow
+            sec = case["second"]
+            res["full2"]["fs0"] = res["full"]["fs"]
+            msg = _oracle(dict(case, A=sec["A"], B=sec["B"], pat=sec["pat"]),
+                          {"full": res["full2"], "a": res["a2"]}, SECOND_OFFSET)
+            if msg:
+                msg = "second use of the element object (after the flow " + \
+                      f"A={case['A']} B={case['B']} pattern {case['pat']}): " + msg
+        return msg
     finally:
         # the full-detail encodings are needed by the oracle only: drop them before the result travels to the main
         # process (memory: ~100 k cases in the thorough tier)
-        for run in ("full", "a"):
+        for run in ("full", "a", "full2", "a2"):
             for k in ("deep_blocks", "deep_tail", "produced", "fs0"):
-                res[run].pop(k, None)
+                if run in res:
+                    res[run].pop(k, None)
 
 
-def _oracle(case, res):
+def _oracle(case, res, offset=0):
     el, pat = case["el"], case["pat"]
     full, a = res["full"], res["a"]
     is_pdf = el["k"] == "pdf"
     what = f"{el['k']} {dict((k, v) for k, v in el.items() if k != 'k')}"
     specs, a_idx = _flow_specs(case)
+    full = dict(full, b=[dict(r, idx=r["idx"] - offset) for r in full["b"]])
     # 1. every unselected value that was consumed is yielded exactly once, as the very same object, intact, in order,
     #    and the directory is the same before and after it
     last = -1
@@ -1205,6 +1368,11 @@ def classify(case, res):
     labels = [el["k"], f"{el['k']}:|A|={len(case['A'])},|B|={len(case['B'])}"]
     if res["full"]["err"]:
         labels.append(f"{el['k']}:err:{res['full']['err']}")
+    if case.get("alias"):
+        # the locality hypothesis is needed: on how many flows with shared objects does the property fail?
+        labels.append("alias:property-holds" if res.get("law") is None else "alias:property-fails")
+    if case.get("second"):
+        labels.append("second-use")
     for s in case["B"]:
         labels.append("B:" + s["d"]["k"] + ("+ctx" if s.get("c") is not None else ""))
     for s in case["A"]:
@@ -1825,6 +1993,9 @@ def _refresh_data(d, ids):
             _refresh_data(x, ids)
     elif k == "baredict":
         d["v"]["n"] = ids.next()
+    elif k == "gplots":
+        for m in d["members"]:
+            _refresh_data(m["d"], ids)
 
 
 # ---- MANIFEST texts ------------------------------------------------------------------------
